@@ -213,3 +213,99 @@ fn c23_o4_replaced_memo_stays_alive() {
     std::mem::forget(ing);
     std::mem::forget(zalsa);
 }
+
+// ---------------------------------------------------------------------------------------------
+// A stand-in for the function ingredient of a cycle head (environment stub, part of every claim that uses it):
+// it answers `provisional_status` with a status chosen by the harness (symbolic) and nothing else. The real
+// `IngredientImpl::<C>::provisional_status` reads that status out of the head's memo through the page-backed memo
+// table, which made the same obligation undecidable in 90 min (probe `c20_o6_*`).
+// ---------------------------------------------------------------------------------------------
+
+pub(crate) struct MockHeadFn {
+    pub(crate) index: IngredientIndex,
+    /// 0 = no memo, 1 = provisional, 2 = poisoned, 3 = final
+    pub(crate) kind: u8,
+    pub(crate) iteration: crate::cycle::IterationStamp,
+    pub(crate) verified_at: Revision,
+    pub(crate) heads: crate::cycle::CycleHeads,
+    pub(crate) types: crate::sync::Arc<crate::table::memo::MemoTableTypes>,
+}
+
+impl std::fmt::Debug for MockHeadFn {
+    fn fmt(&self, _: &mut std::fmt::Formatter<'_>) -> std::fmt::Result {
+        Ok(())
+    }
+}
+
+impl crate::ingredient::Ingredient for MockHeadFn {
+    fn debug_name(&self) -> &'static str {
+        "MockHeadFn"
+    }
+    fn location(&self) -> &'static crate::ingredient::Location {
+        &VFn::LOCATION
+    }
+    fn jar_kind(&self) -> crate::zalsa::JarKind {
+        crate::zalsa::JarKind::TrackedFn
+    }
+    unsafe fn maybe_changed_after(
+        &self,
+        _: &Zalsa,
+        _: crate::database::RawDatabase<'_>,
+        _: Id,
+        _: Revision,
+    ) -> crate::function::VerifyResult {
+        unimplemented!()
+    }
+    fn collect_minimum_serialized_edges(
+        &self,
+        _: &Zalsa,
+        _: crate::zalsa_local::QueryEdge,
+        _: &mut crate::hash::FxIndexSet<crate::zalsa_local::QueryEdge>,
+        _: &mut crate::hash::FxHashSet<crate::zalsa_local::QueryEdge>,
+    ) {
+        unimplemented!()
+    }
+    fn as_function(&self) -> Option<FunctionIngredientRef<'_>> {
+        Some(FunctionIngredientRef::new(self))
+    }
+    fn ingredient_index(&self) -> IngredientIndex {
+        self.index
+    }
+    fn memo_table_types(&self) -> &crate::sync::Arc<crate::table::memo::MemoTableTypes> {
+        &self.types
+    }
+    fn memo_table_types_mut(&mut self) -> &mut crate::sync::Arc<crate::table::memo::MemoTableTypes> {
+        &mut self.types
+    }
+    fn flatten_cycle_head_dependencies(
+        &self,
+        _: &Zalsa,
+        _: Id,
+        _: &mut crate::hash::FxIndexSet<crate::zalsa_local::QueryEdge>,
+        _: &mut crate::hash::FxHashSet<crate::DatabaseKeyIndex>,
+    ) {
+        unimplemented!()
+    }
+}
+
+impl FunctionIngredient for MockHeadFn {
+    fn memo<'db>(&'db self, _: &'db Zalsa, _: Id) -> Option<crate::function::memo::ErasedMemo<'db>> {
+        unimplemented!()
+    }
+    fn sync_table(&self) -> &crate::function::SyncTable {
+        unimplemented!()
+    }
+    fn provisional_status<'db>(&'db self, _: &'db Zalsa, _: Id) -> Option<crate::cycle::ProvisionalStatus<'db>> {
+        use crate::cycle::ProvisionalStatus;
+        match self.kind {
+            0 => None,
+            1 => Some(ProvisionalStatus::Provisional {
+                iteration: self.iteration,
+                verified_at: self.verified_at,
+                cycle_heads: &self.heads,
+            }),
+            2 => Some(ProvisionalStatus::Poisoned { iteration: self.iteration, verified_at: self.verified_at }),
+            _ => Some(ProvisionalStatus::Final { iteration: self.iteration, verified_at: self.verified_at }),
+        }
+    }
+}
